@@ -770,3 +770,110 @@ Proof.
   split; [reflexivity|]. split; [exact C1|]. split; [exact C2|]. split; [exact Hroute|].
   split; [congruence|]. split; [congruence|]. rewrite S3, Hfile. exact (route_msgs_header _ _ _ _ _ Hroute).
 Qed.
+
+(* ================================================================ every byte offset of the data section *)
+(* the records that lie completely within the first n bytes of the data section *)
+Fixpoint completed (n : nat) (rs : list record) : list record :=
+  match rs with
+  | [] => []
+  | r :: rest =>
+      if Nat.leb (List.length (ser_record r)) n then r :: completed (n - List.length (ser_record r)) rest else []
+  end.
+
+Lemma completed_spec : forall rs n, (n < List.length (ser_records rs))%nat ->
+  exists r later cut rem, rs = completed n rs ++ r :: later /\
+    firstn n (ser_records rs) = ser_records (completed n rs) ++ cut /\ ser_record r = cut ++ rem /\ rem <> [].
+Proof.
+  induction rs as [|r0 rest IH]; intros n Hn; [cbn in Hn; lia|].
+  change (ser_records (r0 :: rest)) with (ser_record r0 ++ ser_records rest) in *. rewrite app_length in Hn.
+  cbn [completed]. destruct (Nat.leb_spec (List.length (ser_record r0)) n) as [L|L].
+  - destruct (IH (n - List.length (ser_record r0))%nat ltac:(lia)) as (r & later & cut & rem & E1 & E2 & E3 & E4).
+    exists r, later, cut, rem. split; [cbn [app]; now rewrite <- E1|]. split; [|split; assumption].
+    change (ser_records (r0 :: completed (n - List.length (ser_record r0)) rest))
+      with (ser_record r0 ++ ser_records (completed (n - List.length (ser_record r0)) rest)).
+    rewrite firstn_app, firstn_all2 by lia. rewrite E2. now rewrite app_assoc.
+  - exists r0, rest, (firstn n (ser_record r0)), (skipn n (ser_record r0)). cbn [app ser_records flat_map].
+    split; [reflexivity|]. split; [|split].
+    + rewrite firstn_app. replace (n - List.length (ser_record r0))%nat with 0%nat by lia. cbn [firstn]. now rewrite app_nil_r.
+    + symmetry. apply firstn_skipn.
+    + intros E. apply (f_equal (@List.length N)) in E. rewrite skipn_length in E. cbn in E. lia.
+Qed.
+
+Lemma stream_wf_app a b : stream_wf (a ++ b) = true -> stream_wf a = true /\ stream_wf b = true.
+Proof. unfold stream_wf. rewrite forallb_app. intros H. apply andb_prop in H. exact H. Qed.
+
+(* partial_files for EVERY byte offset n of the data section of a file of the domain of Decode_denote: the reader
+   holds the header and the first n data bytes and then ends (clean EOF or read fault, any chunking).  Decode returns
+   an I/O error and a File that
+   - holds no message at all while fewer than the two file_id records are complete,
+   - and otherwise holds exactly the routed messages of [completed n rs], the records complete before the offset. *)
+Theorem Decode_partial_files_at : forall o g rd fuel h rs ss f2 g1 n,
+  header_wf h -> h_dsize h = N.of_nat (List.length (ser_records rs)) ->
+  starts_with_file_id rs = true -> stream_wf rs = true -> denote rs = Some ss ->
+  start_file h g (hd dummy_msg (ss_msgs ss)) = Some (f2, g1) ->
+  (n < List.length (ser_records rs))%nat ->
+  rd_data rd = hdr_bytes h ++ firstn n (ser_records rs) -> wf rd fuel ->
+  exists res e file',
+    entry_Decode o g rd fuel = TDone res /\ dr_err res = Some (EIO e) /\ dr_hdr res = h /\ dr_file res = Some file' /\
+    f_header file' = h /\
+    ((List.length (completed n rs) < 2)%nat -> f_slots file' = f_slots (new_file h) /\ f_inited file' = None /\ dr_g res = g) /\
+    ((2 <= List.length (completed n rs))%nat ->
+     exists ssd f g', denote (completed n rs) = Some ssd /\ route_msgs h g (ss_msgs ssd) = Some (f, g') /\
+                      f_slots file' = f_slots f /\ f_inited file' = f_inited f /\ dr_g res = g').
+Proof.
+  intros o g rd fuel h rs ss f2 g1 n Hwfh Hsz Hshape Hwf Hden Hstart Hn Hd Hf.
+  assert (HL : N.to_nat (h_dsize h) = List.length (ser_records rs)) by (rewrite Hsz; apply Nat2N.id).
+  destruct (completed_spec rs n Hn) as (r & later & cut & rem & Ers & Efirst & Eser & Hrem).
+  destruct rs as [|[l be gmn fds devflag devs| |] [|[| l' pay dev |] rest]]; try discriminate.
+  cbn [starts_with_file_id] in Hshape. apply andb_prop in Hshape. destruct Hshape as [Eg El].
+  apply N.eqb_eq in Eg, El. subst gmn l'.
+  set (r1 := RDef l be c_MesgNumFileId fds devflag devs) in *. set (r2 := RData l pay dev) in *.
+  destruct (split_prologue l be fds devflag devs pay dev rest ss Hden) as (ssb & ms & Eb & Hrest & Hms & Hhd).
+  fold r1 r2 in Eb.
+  pose proof Hwf as Hwf'. cbn [stream_wf forallb] in Hwf'. apply andb_prop in Hwf'. destruct Hwf' as [Hwf1 Hwf'].
+  apply andb_prop in Hwf'. destruct Hwf' as [Hwf2 _].
+  change (ser_records (r1 :: r2 :: rest)) with (ser_record r1 ++ ser_record r2 ++ ser_records rest) in *.
+  destruct (Nat.lt_ge_cases n (List.length (ser_record r1) + List.length (ser_record r2))) as [Hin|Hout].
+  - (* inside the file_id records *)
+    assert (Hfew : (List.length (completed n (r1 :: r2 :: rest)) < 2)%nat).
+    { cbn [completed]. destruct (Nat.leb_spec (List.length (ser_record r1)) n); [|cbn; lia].
+      destruct (Nat.leb_spec (List.length (ser_record r2)) (n - List.length (ser_record r1))); [lia|cbn; lia]. }
+    rewrite app_assoc, firstn_app in Hd.
+    replace (n - List.length (ser_record r1 ++ ser_record r2))%nat with 0%nat in Hd by (rewrite app_length; lia).
+    cbn [firstn] in Hd. rewrite app_nil_r in Hd.
+    rewrite Hhd in Hstart. rewrite !app_length in HL.
+    destruct (Decode_cut_in_file_id o MFull g rd fuel h l be fds devflag devs pay dev ssb f2 g1
+                (firstn n (ser_record r1 ++ ser_record r2)) (skipn n (ser_record r1 ++ ser_record r2))
+                (or_introl eq_refl) Hwfh Hd) as (res & e & file' & H1 & H2 & H3 & H4 & H5 & H6 & H7 & H8); try assumption.
+    + fold r1 r2. symmetry. apply firstn_skipn.
+    + intros E. apply (f_equal (@List.length N)) in E. rewrite skipn_length, app_length in E. cbn [List.length] in E. lia.
+    + fold r1 r2. lia.
+    + exists res, e, file'. unfold entry_Decode.
+      split; [exact H1|]. split; [exact H2|]. split; [exact H3|]. split; [exact H4|]. split; [exact H8|].
+      split; [intros _; split; [exact H6|split; [exact H7|exact H5]]|intros; lia].
+  - (* after them *)
+    assert (Hcomp : exists rest', completed n (r1 :: r2 :: rest) = r1 :: r2 :: rest').
+    { cbn [completed]. destruct (Nat.leb_spec (List.length (ser_record r1)) n); [|lia].
+      destruct (Nat.leb_spec (List.length (ser_record r2)) (n - List.length (ser_record r1))); [|lia]. eexists; reflexivity. }
+    destruct Hcomp as [rest' Hcomp]. rewrite Hcomp in *.
+    (* the completed prefix is a stream of its own *)
+    change (r1 :: r2 :: rest) with ([r1; r2] ++ rest) in Ers. change (r1 :: r2 :: rest') with ([r1; r2] ++ rest') in Ers.
+    rewrite <- app_assoc in Ers. apply app_inv_head in Ers. subst rest.
+    destruct (stream_wf_app (r1 :: r2 :: rest') (r :: later) Hwf) as [Hwfd Hwfl].
+    cbn [stream_wf forallb] in Hwfl. apply andb_prop in Hwfl. destruct Hwfl as [Hwfr _].
+    rewrite denote_from_app in Hrest. destruct (denote_from ssb rest') as [ssd|] eqn:Ed; [|discriminate].
+    cbn [denote_from] in Hrest. destruct (denote_record ssd r) as [ss2|] eqn:Er; [|discriminate].
+    assert (Hdend : denote (r1 :: r2 :: rest') = Some ssd).
+    { unfold denote. change (r1 :: r2 :: rest') with ([r1; r2] ++ rest'). rewrite denote_from_app, Eb. exact Ed. }
+    destruct (split_prologue l be fds devflag devs pay dev rest' ssd Hdend) as (ssb' & ms' & Eb' & _ & _ & Hhd').
+    fold r1 r2 in Eb'. rewrite Eb in Eb'. injection Eb' as <-.
+    rewrite Hhd, <- Hhd' in Hstart.
+    rewrite Efirst in Hd.
+    destruct (Decode_partial_file o g rd fuel h l be fds devflag devs pay dev rest' r cut rem ssd ss2 f2 g1 Hwfh Hd)
+      as (res & e & file' & f & g' & H1 & H2 & H3 & H4 & H5 & H6 & H7 & H8 & H9); try assumption.
+    + fold r1 r2. rewrite <- Efirst, firstn_length, HL. lia.
+    + exists res, e, file'.
+      split; [exact H1|]. split; [exact H2|]. split; [exact H3|]. split; [exact H4|]. split; [exact H9|].
+      split; [cbn [List.length]; intros; lia|].
+      intros _. exists ssd, f, g'. split; [exact Hdend|]. split; [exact H6|]. split; [exact H7|]. split; [exact H8|exact H5].
+Qed.
